@@ -242,3 +242,21 @@ PROPS["C17"] = {
     "level_text": "Bounded symbolic model checking over expression trees enumerated up to depth 2 with symbolic string bytes: print with the real String methods, parse with the real parser, compare structurally.",
     "level_note": "Bounds in evidence. Trusted: go/ssa, gosym, z3, sameTree.",
 }
+
+# ---------------------------------------------------------------- C19
+PROPS["C19"] = {
+    "viol_filter": r"^(C19:|harness)",
+    "jobs": [
+        Job("parse", "H_errpos", "0..11,0..2,4", workers=16),
+        Job("soyhtml", "H_rendererr", "0..2,4", workers=8),
+        Job("parse", "H_parseCtx", "0..49,0..1,false", workers=16, maxsteps=300000),
+        Job("parse", "H_exprCtx", "0..17,0..1,false", workers=16, maxsteps=300000),
+        Job("parse", "H_parseCtx", "0..49,2,false", tier="thorough", workers=16, maxsteps=300000, note="k=2"),
+        Job("parse", "H_errpos", "0..11,0..2,7", tier="thorough", workers=16, note="7 lines"),
+    ],
+    "bounds": "parse errors: 12 fault kinds injected on a symbolically chosen line of a 4-line (thorough 7) template body with LF, CRLF and blank-line separators: file name, exact line (point faults) or line within [construct start, end of input] (constructs left open), same numbers in the message text; on the C05 context harnesses (arbitrary symbolic bytes) every parse error carries the given file name and a line within 1..1+count(LF). Render errors: failing command on a symbolically chosen line at call depth 0..2 across two files",
+    "outside": "column numbers are only required to agree between ErrFilePos and the message text; files longer than the bound",
+    "assumptions": [],
+    "level_text": "Bounded symbolic model checking: the fault position is a solver-chosen value and, on the context harnesses, the whole input suffix is symbolic; position bookkeeping of every error path reached is compared with the injected position.",
+    "level_note": "Bounds in evidence. Trusted: go/ssa, gosym, z3.",
+}
